@@ -4,6 +4,7 @@
 # (VERIF_REPO), so /repo itself is never touched and several can run at once.
 # Every replay file the check writes is then replayed in a fresh process
 # against the same patched tree; the replay must reproduce (exit 1).
+HERE="$(cd "$(dirname "${BASH_SOURCE[0]}")/.." && pwd)"
 patch="$(readlink -f "$1")"; prop="$2"; runs="${3:-}"
 name=$(basename "$(dirname "$patch")")-$(basename "$patch" .diff)
 wt=$(mktemp -d /tmp/mutwt-XXXXXX); rmdir $wt
@@ -11,11 +12,11 @@ out=/tmp/mutout/$name-$prop; rm -rf "$out"; mkdir -p "$out"
 git -C /repo worktree add -q --detach "$wt" HEAD || exit 2
 if ! git -C "$wt" apply "$patch"; then echo "PATCH-FAILED $patch"; git -C /repo worktree remove --force "$wt"; exit 2; fi
 if [ -n "$runs" ]; then export VERIF_RUNS=$runs; fi
-VERIF_REPO=$wt VERIF_OUT=$out /verif/check "$prop" ${VERIF_MUT_TIER:-quick} > "$out/log" 2>&1; rc=$?
+VERIF_REPO=$wt VERIF_OUT=$out "$HERE/check" "$prop" ${VERIF_MUT_TIER:-quick} > "$out/log" 2>&1; rc=$?
 rep=""
 if [ -z "${VERIF_MUT_NOREPLAY:-}" ]; then
   for f in $(grep -o 'replay=[^ ]*' "$out/log" | sed 's/replay=//' | sort -u); do
-    VERIF_REPO=$wt VERIF_OUT=$out /verif/check replay "$f" > "$out/replay.$(basename $f).log" 2>&1; r=$?
+    VERIF_REPO=$wt VERIF_OUT=$out "$HERE/check" replay "$f" > "$out/replay.$(basename $f).log" 2>&1; r=$?
     rep="$rep replay:$(basename $f .json)=$r"
   done
 fi
